@@ -53,8 +53,8 @@ def plan(tier, seed):
     return shards
 
 
-def make_rig(seqname, crc_support=True):
-    return rigs.ClientRig(node_id=9, timeout=0.004, blk_sizes=SEQS[seqname], crc_support=crc_support)
+def make_rig(seqname, crc_support=True, via="listener"):
+    return rigs.ClientRig(node_id=9, timeout=0.004, blk_sizes=SEQS[seqname], crc_support=crc_support, via=via)
 
 
 def do_block_download(rig, c, data):
@@ -121,11 +121,13 @@ def run_undisturbed(ctx, desc):
         for seqname in SEQS:
             for crc_req, crc_sup in ((True, True), (False, True), (True, False)):
                 style = rng.choice(["whole", "whole", "raw7", "chunks"])
-                rig = make_rig(seqname, crc_sup)
+                backend = rng.choice(["listener", "listener", "notify-reuse"])
+                rig = make_rig(seqname, crc_sup, backend)
                 c = {"kind": "undisturbed", "n": n, "seq": seqname, "crc": crc_req, "crc_support": crc_sup, "style": style,
-                     "seed": rng.randint(0, 1 << 30), "mux": [rng.choice([0x1F50, 0x2000, 0xFFFF]), rng.choice([0, 1, 255])]}
+                     "seed": rng.randint(0, 1 << 30), "mux": [rng.choice([0x1F50, 0x2000, 0xFFFF]), rng.choice([0, 1, 255])],
+                     "backend": backend}
                 data = payload(n, c["seed"])
-                ctx.case((c["kind"], lenclass(n), seqname, crc_req and crc_sup, style), nontrivial=n > 7)
+                ctx.case((c["kind"], lenclass(n), seqname, crc_req and crc_sup, style, backend), nontrivial=n > 7)
                 exc = None
                 try:
                     do_block_download(rig, c, data)
@@ -273,7 +275,7 @@ def run_loss(ctx, desc):
 
 def replay(ctx, case):
     if case["kind"] == "undisturbed":
-        rig = make_rig(case["seq"], case.get("crc_support", True))
+        rig = make_rig(case["seq"], case.get("crc_support", True), case.get("backend", "listener"))
         data = payload(case["n"], case["seed"])
         exc = None
         try:
